@@ -597,8 +597,6 @@ def next_representable(v, kind):
 
 
 def compare_collapsed(collapsed, da, case, runs, coord, check_mean, stats):
-    import scipp as sc
-
     dim, pdim = case["dim"], case["plateau_dim"]
     if collapsed.dims != (pdim,) or collapsed.sizes[pdim] != len(runs):
         raise Violation("collapse-structure", f"collapsed sizes {dict(collapsed.sizes)}, expected {{{pdim!r}: {len(runs)}}}")
@@ -643,7 +641,6 @@ def compare_collapsed(collapsed, da, case, runs, coord, check_mean, stats):
                 raise Violation("collapse-mean",
                                 f"plateau {k}: mean {means[k]!r}, exact mean of its {b - a} points {float(ref)!r} "
                                 f"(error {err:.3e} > {MEAN_TOL:g} * {scale:.3g})")
-    del sc
 
 
 # ============================================================================ checks
@@ -783,7 +780,6 @@ def check_in_phase(case):
             raise Violation("out-of-phase-kept",
                             f"element {i} = {vals[i]!r} (ref {ref!r}, x/ref = {q!r}, ref/x = {(1 / q if q else math.inf)!r}) is not within rtol "
                             f"{case['rtol']!r} of any integer multiple/divisor but was kept", {"index": i})
-    sel = np.array(kept, dtype=np.int64)
     expect = da[dim, 0:0] if not kept else sc.concat([da[dim, i:i + 1] for i in kept], dim)
     _expect_var(out.data, expect.data, "kept data")
     if sorted(out.coords) != sorted(da.coords):
@@ -794,7 +790,6 @@ def check_in_phase(case):
         raise Violation("masks", f"result masks {sorted(out.masks)}, input has {sorted(da.masks)}")
     for m in da.masks:
         _expect_var(out.masks[m], expect.masks[m], f"mask {m!r}")
-    del sel
     labs = ["dtype:" + dtype, "unit:" + unit, "coord:" + case["coord"],
             "rtol:" + ("<=1e-6" if case["rtol"] <= 1e-6 else "<=1e-3" if case["rtol"] <= 1e-3 else "<=1e-1"),
             "ref:" + ("neg" if ref < 0 else "pos")]
@@ -819,17 +814,17 @@ def check_in_phase(case):
 
 FACETS = [
     Facet("plateaus_exact", check_plateaus, strategy=lambda tier: lattice_series(),
-          quick=(4, 250), thorough=(16, 2500), min_nontrivial=0.3,
+          quick=(4, 250), thorough=(16, 1500), min_nontrivial=0.3,
           doc="exact-arithmetic series hitting |slope| == atol; bins == maximal runs with >= min_n_points "
               "points, contents unchanged; pipeline collapse"),
     Facet("plateaus_noise", check_plateaus, strategy=lambda tier: noise_series(),
-          quick=(4, 250), thorough=(16, 2500), min_nontrivial=0.1,
+          quick=(4, 250), thorough=(16, 1500), min_nontrivial=0.1,
           doc="levels / ramps with noise below and around the tolerance, generic float scales, atol in another unit"),
     Facet("collapse", check_collapse, strategy=lambda tier: collapse_cases(),
-          quick=(2, 300), thorough=(16, 2000), min_nontrivial=0.3,
+          quick=(2, 300), thorough=(16, 1000), min_nontrivial=0.3,
           doc="collapse_plateaus on independently built bins: mean, [min, next-after max) interval, containment"),
     Facet("in_phase", check_in_phase, strategy=lambda tier: in_phase_cases(),
-          quick=(2, 500), thorough=(16, 4000), min_nontrivial=0.3,
+          quick=(2, 500), thorough=(16, 2500), min_nontrivial=0.3,
           doc="kept <=> within rtol of an integer multiple or divisor of the reference; order, coords, masks kept"),
 ]
 
